@@ -403,4 +403,36 @@ theorem dft_lin_form (i : DftIn) (hl : i.lin = true) (hp : isPow2L i.L = true) (
       rw [Nat.mul_comm, Nat.mul_assoc]
     rw [this]; omega
 
+/-- the block-alignment clause for every phase response (stated in `Properties/C14.lean` as `block_aligned_all_phases`) -/
+theorem dft_block_aligned (i : DftIn) (hp : isPow2L i.L = true) (b : Nat) (hD : i.dftLen = 2 ^ b)
+    (hlin : i.lin = true → i.fnEqL = true ∨ i.L ∣ 4) (hnl : i.lin = false → 1 ≤ i.tpLen) :
+    FDomainOK (dftStageInit i) ∧ i.L ∣ (dftStageInit i).blockLen ∧ i.L ∣ (dftStageInit i).numTaps - 1 ∧
+    32 * i.L ≤ (dftStageInit i).dftLen := by
+  obtain ⟨a, _, ha⟩ := isPow2L_spec i.L hp
+  have hge : 32 * i.L ≤ finalDftLen i.L i.dftLen :=
+    finalDftLen_ge i.L i.dftLen hp (by rw [hD]; exact Nat.pow_pos (by omega))
+  obtain ⟨c, hc⟩ := finalDftLen_pow2 i.L b
+  rw [← hD] at hc
+  have hdvdD : i.L ∣ finalDftLen i.L i.dftLen := by
+    rw [hc]
+    have : i.L ≤ 2 ^ c := by rw [← hc]; omega
+    rw [ha] at this ⊢
+    exact pow2_dvd_of_le a c this
+  have htaps : i.L ∣ (dftStageInit i).numTaps - 1 := by
+    cases hl : i.lin
+    · rw [(dft_nonlin i hl).1]; exact tapPad_dvd i.L i.tpLen hp (hnl hl)
+    · rw [(dft_lin_numTaps i hl).1]
+      have hk : i.L ∣ designK true i.L i.fnEqL := by
+        unfold designK
+        rcases hlin hl with hf | h4
+        · rw [if_pos (by simp [hp, hf])]; exact Nat.dvd_mul_left _ _
+        · split
+          · exact ⟨2, by omega⟩
+          · exact h4
+      have hm := roundTaps_mod i.nRaw (designK true i.L i.fnEqL)
+      exact Nat.dvd_trans hk (Nat.dvd_of_mod_eq_zero hm)
+  have hbl : i.L ∣ (dftStageInit i).blockLen := by
+    rw [dft_blockLen, dft_dftLen]; exact Nat.dvd_sub hdvdD htaps
+  exact ⟨fun _ => by rw [dft_L]; exact hbl, hbl, htaps, by rw [dft_dftLen]; exact hge⟩
+
 end Soxr.Phase
